@@ -750,6 +750,17 @@ module Z =
                | XO _ -> true
                | _ -> false)
 
+  (** val odd : z -> bool **)
+
+  let odd = function
+  | Z0 -> false
+  | Zpos p -> (match p with
+               | XO _ -> false
+               | _ -> true)
+  | Zneg p -> (match p with
+               | XO _ -> false
+               | _ -> true)
+
   (** val log2 : z -> z **)
 
   let log2 = function
@@ -3807,6 +3818,261 @@ let rec center_search fuel dims border0 c =
 let center_geom dims border0 =
   center_search (Z.to_nat (Z.add (Zpos (XI (XI (XI XH)))) border0)) dims
     border0 (Zpos XH)
+
+(** val qfloor : q -> z **)
+
+let qfloor x =
+  let { qnum = n0; qden = d } = x in Z.div n0 (Zpos d)
+
+(** val zq0 : z -> q **)
+
+let zq0 =
+  inject_Z
+
+(** val spline_start : z -> q -> z **)
+
+let spline_start order x =
+  Z.sub
+    (qfloor
+      (qplus x
+        (if Z.odd order
+         then { qnum = Z0; qden = XH }
+         else { qnum = (Zpos XH); qden = (XO XH) })))
+    (Z.quot order (Zpos (XO XH)))
+
+(** val bspline : z -> q -> q **)
+
+let bspline order y =
+  if Z.eqb order (Zpos XH)
+  then if qltb { qnum = (Zpos XH); qden = XH } y
+       then { qnum = Z0; qden = XH }
+       else qminus { qnum = (Zpos XH); qden = XH } y
+  else if Z.eqb order (Zpos (XO XH))
+       then if qltb y { qnum = (Zpos XH); qden = (XO XH) }
+            then qminus { qnum = (Zpos (XI XH)); qden = (XO (XO XH)) }
+                   (qmult y y)
+            else if qltb y { qnum = (Zpos (XI XH)); qden = (XO XH) }
+                 then qmult
+                        (qmult { qnum = (Zpos XH); qden = (XO XH) }
+                          (qminus { qnum = (Zpos (XI XH)); qden = (XO XH) } y))
+                        (qminus { qnum = (Zpos (XI XH)); qden = (XO XH) } y)
+                 else { qnum = Z0; qden = XH }
+       else if Z.eqb order (Zpos (XI XH))
+            then if qltb y { qnum = (Zpos XH); qden = XH }
+                 then qdiv
+                        (qplus
+                          (qmult
+                            (qmult (qmult y y)
+                              (qminus y { qnum = (Zpos (XO XH)); qden = XH }))
+                            { qnum = (Zpos (XI XH)); qden = XH }) { qnum =
+                          (Zpos (XO (XO XH))); qden = XH }) { qnum = (Zpos
+                        (XO (XI XH))); qden = XH }
+                 else if qltb y { qnum = (Zpos (XO XH)); qden = XH }
+                      then qdiv
+                             (qmult
+                               (qmult
+                                 (qminus { qnum = (Zpos (XO XH)); qden = XH }
+                                   y)
+                                 (qminus { qnum = (Zpos (XO XH)); qden = XH }
+                                   y))
+                               (qminus { qnum = (Zpos (XO XH)); qden = XH } y))
+                             { qnum = (Zpos (XO (XI XH))); qden = XH }
+                      else { qnum = Z0; qden = XH }
+            else if qltb y { qnum = (Zpos XH); qden = (XO XH) }
+                 then qplus
+                        (qmult (qmult y y)
+                          (qminus
+                            (qmult (qmult y y) { qnum = (Zpos XH); qden = (XO
+                              (XO XH)) }) { qnum = (Zpos (XI (XO XH)));
+                            qden = (XO (XO (XO XH))) })) { qnum = (Zpos (XI
+                        (XI (XO (XO (XI (XI XH))))))); qden = (XO (XO (XO (XO
+                        (XO (XO (XI XH))))))) }
+                 else if qltb y { qnum = (Zpos (XI XH)); qden = (XO XH) }
+                      then qplus
+                             (qmult y
+                               (qplus
+                                 (qmult y
+                                   (qminus
+                                     (qmult y
+                                       (qminus { qnum = (Zpos (XI (XO XH)));
+                                         qden = (XO (XI XH)) }
+                                         (qdiv y { qnum = (Zpos (XO (XI
+                                           XH))); qden = XH }))) { qnum =
+                                     (Zpos (XI (XO XH))); qden = (XO (XO
+                                     XH)) })) { qnum = (Zpos (XI (XO XH)));
+                                 qden = (XO (XO (XO (XI XH)))) })) { qnum =
+                             (Zpos (XI (XI (XI (XO (XI XH)))))); qden = (XO
+                             (XO (XO (XO (XO (XI XH)))))) }
+                      else if qltb y { qnum = (Zpos (XI (XO XH))); qden = (XO
+                                XH) }
+                           then qdiv
+                                  (qmult
+                                    (qmult
+                                      (qminus y { qnum = (Zpos (XI (XO XH)));
+                                        qden = (XO XH) })
+                                      (qminus y { qnum = (Zpos (XI (XO XH)));
+                                        qden = (XO XH) }))
+                                    (qmult
+                                      (qminus y { qnum = (Zpos (XI (XO XH)));
+                                        qden = (XO XH) })
+                                      (qminus y { qnum = (Zpos (XI (XO XH)));
+                                        qden = (XO XH) }))) { qnum = (Zpos
+                                  (XO (XO (XO (XI XH))))); qden = XH }
+                           else { qnum = Z0; qden = XH }
+
+(** val spline_weights : z -> q -> q list **)
+
+let spline_weights order x =
+  let start = spline_start order x in
+  map (fun hh ->
+    bspline order (qabs (qplus (qminus (zq0 start) x) (zq0 hh))))
+    (zseq Z0 (Z.to_nat (Z.add order (Zpos XH))))
+
+(** val qtrunc : q -> z **)
+
+let qtrunc =
+  qfloor
+
+(** val map_coordinate : z -> z -> q -> q option **)
+
+let map_coordinate mode len x =
+  if qltb x { qnum = Z0; qden = XH }
+  then if Z.eqb mode extendMirror
+       then if Z.leb len (Zpos XH)
+            then Some { qnum = Z0; qden = XH }
+            else let sz2 = Z.sub (Z.mul (Zpos (XO XH)) len) (Zpos (XO XH)) in
+                 let i =
+                   qplus
+                     (qmult (zq0 sz2)
+                       (zq0 (qtrunc (qdiv (qopp x) (zq0 sz2))))) x
+                 in
+                 Some
+                 (if negb (qltb (zq0 (Z.sub (Zpos XH) len)) i)
+                  then qplus i (zq0 sz2)
+                  else qopp i)
+       else if Z.eqb mode extendReflect
+            then if Z.leb len (Zpos XH)
+                 then Some { qnum = Z0; qden = XH }
+                 else let sz2 = Z.mul (Zpos (XO XH)) len in
+                      let i =
+                        if qltb x (qopp (zq0 sz2))
+                        then qplus
+                               (qmult (zq0 sz2)
+                                 (zq0 (qtrunc (qdiv (qopp x) (zq0 sz2))))) x
+                        else x
+                      in
+                      Some
+                      (if qltb i (qopp (zq0 len))
+                       then qplus i (zq0 sz2)
+                       else qminus (qopp i) { qnum = (Zpos XH); qden = XH })
+            else if Z.eqb mode extendWrap
+                 then if Z.leb len (Zpos XH)
+                      then Some { qnum = Z0; qden = XH }
+                      else let sz = Z.sub len (Zpos XH) in
+                           Some
+                           (qplus x
+                             (qmult (zq0 sz)
+                               (qplus (zq0 (qtrunc (qdiv (qopp x) (zq0 sz))))
+                                 { qnum = (Zpos XH); qden = XH })))
+                 else if Z.eqb mode extendNearest
+                      then Some { qnum = Z0; qden = XH }
+                      else None
+  else if qltb (zq0 (Z.sub len (Zpos XH))) x
+       then if Z.eqb mode extendMirror
+            then if Z.leb len (Zpos XH)
+                 then Some { qnum = Z0; qden = XH }
+                 else let sz2 =
+                        Z.sub (Z.mul (Zpos (XO XH)) len) (Zpos (XO XH))
+                      in
+                      let i =
+                        qminus x
+                          (qmult (zq0 sz2) (zq0 (qtrunc (qdiv x (zq0 sz2)))))
+                      in
+                      Some
+                      (if negb (qltb i (zq0 len))
+                       then qminus (zq0 sz2) i
+                       else i)
+            else if Z.eqb mode extendReflect
+                 then if Z.leb len (Zpos XH)
+                      then Some { qnum = Z0; qden = XH }
+                      else let sz2 = Z.mul (Zpos (XO XH)) len in
+                           let i =
+                             qminus x
+                               (qmult (zq0 sz2)
+                                 (zq0 (qtrunc (qdiv x (zq0 sz2)))))
+                           in
+                           Some
+                           (if negb (qltb i (zq0 len))
+                            then qminus (qminus (zq0 sz2) i) { qnum = (Zpos
+                                   XH); qden = XH }
+                            else i)
+                 else if Z.eqb mode extendWrap
+                      then if Z.leb len (Zpos XH)
+                           then Some { qnum = Z0; qden = XH }
+                           else let sz = Z.sub len (Zpos XH) in
+                                Some
+                                (qminus x
+                                  (qmult (zq0 sz)
+                                    (zq0 (qtrunc (qdiv x (zq0 sz))))))
+                      else if Z.eqb mode extendNearest
+                           then Some (zq0 (Z.sub len (Zpos XH)))
+                           else None
+       else Some x
+
+(** val edge_index : z -> z -> z **)
+
+let edge_index len idx =
+  if Z.leb len (Zpos XH)
+  then Z0
+  else let s2 = Z.sub (Z.mul (Zpos (XO XH)) len) (Zpos (XO XH)) in
+       if Z.ltb idx Z0
+       then let i = Z.add (Z.mul s2 (Z.quot (Z.opp idx) s2)) idx in
+            if Z.leb i (Z.sub (Zpos XH) len) then Z.add i s2 else Z.opp i
+       else if Z.geb idx len
+            then let i = Z.sub idx (Z.mul s2 (Z.quot idx s2)) in
+                 if Z.geb i len then Z.sub s2 i else i
+            else idx
+
+(** val qsum0 : q list -> q **)
+
+let qsum0 l =
+  fold_right qplus { qnum = Z0; qden = XH } l
+
+(** val interp1 : z -> z -> q list -> q -> q **)
+
+let interp1 order mode dat x =
+  let len = zlen dat in
+  (match map_coordinate mode len x with
+   | Some cc ->
+     let start = spline_start order cc in
+     qsum0
+       (map (fun hw ->
+         qmult (snd hw)
+           (nthZ { qnum = Z0; qden = XH } dat
+             (edge_index len (Z.add start (fst hw)))))
+         (combine (zseq Z0 (Z.to_nat (Z.add order (Zpos XH))))
+           (spline_weights order cc)))
+   | None -> { qnum = Z0; qden = XH })
+
+(** val shift1 : z -> z -> q list -> q -> q list **)
+
+let shift1 order mode dat s =
+  map (fun k -> interp1 order mode dat (qminus (zq0 k) s))
+    (zseq Z0 (length dat))
+
+(** val zoom_factor : z -> z -> q **)
+
+let zoom_factor n_in n_out =
+  if Z.eqb n_out (Zpos XH)
+  then { qnum = (Zpos XH); qden = XH }
+  else qdiv (zq0 (Z.sub n_in (Zpos XH))) (zq0 (Z.sub n_out (Zpos XH)))
+
+(** val zoom1 : z -> z -> q list -> z -> q list **)
+
+let zoom1 order mode dat n_out =
+  map (fun k ->
+    interp1 order mode dat (qmult (zq0 k) (zoom_factor (zlen dat) n_out)))
+    (zseq Z0 (Z.to_nat n_out))
 
 (** val gbernsen_px : q -> q -> q -> q -> q -> bool **)
 
